@@ -2,6 +2,7 @@
 // delta / value text  <->  the real value-layer `Value`s of /repo.
 //
 //   schema  S ::= TS<Int> | TS<Str> | SIGNAL | TSS<Int> | TSS<Str> | TSD<K,S> | TSL<S,n> (n>=1, fixed)
+//               | TSL<S> (DYNAMIC list: no size, grows on `at(i)`; indices 0..DYN_MAX-1 in delta text)
 //               | TSB<f:S,g:S,...> | TSW<Int,period,min_period>          K ::= Int | Str
 //   delta   TS/TSW: <scalar>   SIGNAL: T   TSS: {+e,+e,-e}   TSD: {-k,-k,k=<d>,k=<d>}
 //           TSL: [i=<d>,...]   TSB: (f=<d>,...)   (absent field / index = no child delta)
@@ -38,6 +39,8 @@ namespace hgv::rt
     enum class Kind { TS, SIGNAL, TSS, TSD, TSL, TSB, TSW };
     enum class ScalarK { Int, Str, Bool };
 
+    constexpr std::size_t DYN_MAX = 12;   // largest index + 1 the delta text of a dynamic TSL may name
+
     struct Sch
     {
         Kind                                              kind{Kind::TS};
@@ -45,6 +48,7 @@ namespace hgv::rt
         std::vector<std::pair<std::string, std::unique_ptr<Sch>>> kids;          // TSD: 1, TSL: 1, TSB: n
         std::size_t                                       n{0};                  // TSL size, TSW period
         std::size_t                                       min_n{0};              // TSW min period
+        bool                                              dyn{false};            // TSL without a fixed size
         const TSValueTypeMetaData                        *meta{nullptr};
     };
 
@@ -130,11 +134,20 @@ namespace hgv::rt
         {
             out->kind  = Kind::TSL;
             auto child = parse_schema(c);
-            c.need(',');
-            out->n = static_cast<std::size_t>(std::stoul(c.token()));
-            c.need('>');
-            if (out->n == 0) throw ParseError("TSL size");
-            out->meta = r.tsl(child->meta, out->n);
+            if (c.eat('>'))
+            {
+                out->dyn  = true;                 // dynamic list: fixed_size() == 0
+                out->n    = 0;
+                out->meta = r.tsl(child->meta, 0);
+            }
+            else
+            {
+                c.need(',');
+                out->n = static_cast<std::size_t>(std::stoul(c.token()));
+                c.need('>');
+                if (out->n == 0) throw ParseError("TSL size");
+                out->meta = r.tsl(child->meta, out->n);
+            }
             out->kids.emplace_back("", std::move(child));
         }
         else if (c.eat_word("TSB<"))
@@ -291,7 +304,8 @@ namespace hgv::rt
                 {
                     do {
                         Value k = scalar_value(ScalarK::Int, c.token());
-                        if (k.view().checked_as<Int>() < 0 || static_cast<std::size_t>(k.view().checked_as<Int>()) >= sch.n)
+                        if (k.view().checked_as<Int>() < 0 ||
+                            static_cast<std::size_t>(k.view().checked_as<Int>()) >= (sch.dyn ? DYN_MAX : sch.n))
                             throw ParseError("TSL index out of range");
                         c.need('=');
                         Value d = parse_delta(child, c);
@@ -409,8 +423,10 @@ namespace hgv::rt
 
     // ---------------------------------------------------------------- live output -> canonical state text
     //   invalid position: _    TS: v   SIGNAL: T   TSS: {e,..}   TSD: {k=<s>,..}   TSL: [<s>,<s>]   TSB: (f=<s>,..)
-    //   TSW: <e;e;e> (oldest first; _ before the first push)
-    inline std::string print_state(const Sch &sch, const TSOutputView &o)
+    //   TSW: <e;e;e> (oldest first; _ before the first push)   dynamic TSL: [<s>,<s>]#<size>
+    //   (View = TSOutputView or TSInputView: the same read API)
+    template <typename View>
+    std::string print_state(const Sch &sch, const View &o)
     {
         switch (sch.kind)
         {
@@ -471,7 +487,7 @@ namespace hgv::rt
                     if (i) out += ",";
                     out += print_state(child, l.at(i));
                 }
-                return "[" + out + "]";
+                return "[" + out + "]" + (sch.dyn ? "#" + std::to_string(l.size()) : std::string{});
             }
             case Kind::TSB:
             {
